@@ -708,7 +708,10 @@ def r6(ctx):
                 continue
             ctx.require(len(handles) == 1, f"{f0.key}: the state is discarded from several different sets ({sorted(handles)})")
             (kind, handle), = handles
+            # the local / parameter whose truth means "there is an identity map"
             linked = {handle} if kind == "map" else set()
+            if kind == "own":
+                linked = {nm for nm, v in env.items() if isinstance(v, ast.Call) and not v.args and callee_is(v, f"{recv}._instance_dict")}
             w = g.must_pass([g.entry], resets, disc, edge_ok=_assuming(g, {"modified": True, "linked": True}, {k: v for k, v in env.items() if k not in linked}, recv=recv, linked=linked))
             ctx.check(w is None, key,
                       f"a path resets {recv}.modified on a modified state without discarding it from the _modified set that was handed in "
